@@ -1478,7 +1478,13 @@ pub fn c10_case(dir: &Path, stream: &[u8], ending: Ending, a_first: bool) -> Res
             return Err(("server-died".into(), "the server thread ended after the hostile stream".into()));
         }
         // A saw the replies of its well-formed prefix (then EOF / RST / nothing)
-        if a_bytes != want_replies {
+        // (error replies to what is not well-formed are the server's choice: the property allows
+        // anything up to closing the connection, but no command reply beyond the well-formed prefix)
+        let tolerated = a_bytes.starts_with(&want_replies) && {
+            let (fr, rest, bad) = resp_split(&a_bytes[want_replies.len()..]);
+            rest.is_empty() && !bad && fr.iter().all(|f| matches!(f, RFrame::Error(_)))
+        };
+        if !tolerated {
             return Err(("hostile-connection-got-unexpected-replies".into(), format!("received {:?}, the reference expects {:?} (malformed {}, incomplete {})", String::from_utf8_lossy(&a_bytes), String::from_utf8_lossy(&want_replies), malformed, incomplete)));
         }
         if a_first {
